@@ -14,6 +14,15 @@ import (
 )
 
 type S struct{ A int }
+
+// values whose own Error() / String() methods panic (promoted from a nil embedded field): rendering a
+// Maybe of them must still not panic
+type wrappedErr struct{ error }
+type label struct{ name string }
+
+func (l *label) String() string { return l.name }
+
+type wrappedStringer struct{ *label }
 type E struct{}
 
 type val struct {
@@ -237,6 +246,8 @@ func main() {
 		{"Just(1)", j1}, {"Just(Just(1))", fpgo.Maybe.Just(j1)}, {"Just(Just(Just(1)))", fpgo.Maybe.Just(fpgo.Maybe.Just(j1))},
 		{"None", fpgo.None}, {"Just(None)", fpgo.Maybe.Just(fpgo.None)}, {"JustGenerics(nil)", fpgo.JustGenerics[interface{}](nil)},
 		{"Just(typed nil) as value", fpgo.Maybe.Just(nilInt)},
+		{"struct embedding a nil error", wrappedErr{}}, {"struct embedding a nil Stringer", wrappedStringer{}},
+		{"pointer to struct embedding a nil error", &wrappedErr{}}, {"error value", fmt.Errorf("boom")}, {"Stringer value", &label{"x"}},
 	}
 	var evals, nontrivial int
 	var samples lib.Samples
